@@ -232,6 +232,8 @@ vector<string> ParameterList::getMatchingParameterNames(const string& pattern) c
     if (pos1 != 0)
       flag = false;
     pos1 += g.length();
+    if (!stj.hasMoreToken() && name != g)
+      flag = false; // A pattern without wildcard matches the identical name only.
     while (flag && stj.hasMoreToken())
     {
       g = stj.nextToken();
